@@ -160,7 +160,9 @@ impl Estimator {
         // Calculate the discriminant score corresponding to the lower bin
         let bin_lo_score = bin_lo as f64 * self.score_step + self.min_score;
         // What percent of the way to the higher bin are we?
-        let linear = (score - bin_lo_score) / self.score_step;
+        // rounding can push this just outside [0, 1] next to a grid point, which would
+        // extrapolate the PEP below 0 (and its log10 to NaN)
+        let linear = ((score - bin_lo_score) / self.score_step).clamp(0.0, 1.0);
 
         // Linear interpolation between lower and upper bin
         let delta = upper - lower;
